@@ -11,6 +11,7 @@ package vs
 
 import (
 	"fmt"
+	"os"
 	"reflect"
 	"runtime"
 	"sort"
@@ -110,12 +111,22 @@ func gid() uint64 {
 	return id
 }
 
+// self returns the calling thread. Exactly one managed goroutine runs at a
+// time and every call into this package during a run comes from it, so it is
+// the thread the scheduler woke last. (Looking the goroutine id up through
+// runtime.Stack costs tens of microseconds on deep stacks; with VS_CHECK_GID=1
+// the assumption is verified on every call instead.)
 func (s *sched) self() *thread {
-	if v, ok := s.gmap.Load(gid()); ok {
-		return v.(*thread)
+	t := s.cur
+	if checkGID && t != nil {
+		if v, ok := s.gmap.Load(gid()); !ok || v.(*thread) != t {
+			panic("vs: call from a goroutine that is not the running thread")
+		}
 	}
-	return nil
+	return t
 }
+
+var checkGID = os.Getenv("VS_CHECK_GID") == "1"
 
 // Options for Run.
 type Options struct {
@@ -154,8 +165,10 @@ func (s *sched) spawn(name string, daemon bool, fn func()) *thread {
 	t := &thread{id: len(s.threads), name: name, daemon: daemon, wake: make(chan struct{}), op: opStart}
 	s.threads = append(s.threads, t)
 	go func() {
-		s.gmap.Store(gid(), t)
-		defer s.gmap.Delete(gid())
+		if checkGID {
+			s.gmap.Store(gid(), t)
+			defer s.gmap.Delete(gid())
+		}
 		<-t.wake
 		defer func() {
 			if e := recover(); e != nil {
@@ -618,7 +631,7 @@ func Send[T any](c chan<- T, v any) {
 	if !t.val.IsValid() {
 		t.val = reflect.Zero(reflect.TypeOf(c).Elem())
 	}
-	t.label = fmt.Sprintf("chan %T", c)
+	t.label = "chan"
 	s.park(t)
 }
 
@@ -663,7 +676,7 @@ func Recv2[T any](c <-chan T) (T, bool) {
 		return v, ok
 	}
 	t.op, t.ch = opRecv, reflect.ValueOf(c)
-	t.label = fmt.Sprintf("chan %T", c)
+	t.label = "chan"
 	s.park(t)
 	return val[T](t.got), t.gotOK
 }
@@ -710,7 +723,7 @@ func Select(cases ...Case) int {
 			cases[i].val = reflect.Zero(cases[i].ch.Type().Elem())
 		}
 	}
-	t.op, t.cases, t.label = opSelect, cases, fmt.Sprintf("%d cases", len(cases))
+	t.op, t.cases, t.label = opSelect, cases, "cases"
 	s.park(t)
 	t.cases = nil
 	return t.selIdx
@@ -816,7 +829,7 @@ func (m *Mutex) Lock() {
 		m.real.Lock()
 		return
 	}
-	t.op, t.mu, t.rw, t.label = opLock, m, nil, fmt.Sprintf("%p", m)
+	t.op, t.mu, t.rw, t.label = opLock, m, nil, "mutex"
 	s.park(t)
 	t.mu = nil
 }
@@ -867,7 +880,7 @@ func (m *RWMutex) Lock() {
 		m.real.Lock()
 		return
 	}
-	t.op, t.rw, t.mu, t.label = opLock, m, nil, fmt.Sprintf("%p", m)
+	t.op, t.rw, t.mu, t.label = opLock, m, nil, "rwmutex"
 	s.park(t)
 	t.rw = nil
 }
@@ -900,7 +913,7 @@ func (m *RWMutex) RLock() {
 		m.real.RLock()
 		return
 	}
-	t.op, t.rw, t.mu, t.label = opRLock, m, nil, fmt.Sprintf("%p", m)
+	t.op, t.rw, t.mu, t.label = opRLock, m, nil, "rwmutex"
 	s.park(t)
 	t.rw = nil
 }
